@@ -37,13 +37,16 @@ RULE = ("case = 'tables' (one exhaustive comparison) or a sequence of cache stat
         "implementation in a new interpreter; non-trivial = sequence containing at least one non-valid state; distinct by sequence")
 ASSUMPTIONS = ["PLY's table construction is deterministic for a given grammar (checked across hash seeds by C14)"]
 
-STATES = ["valid", "tree", "missing", "stale", "oldver"]
+STATES = ["valid", "tree", "missing", "stale", "oldver", "staleold"]
 GEN_SCRIPTS = [
     "CREATE TABLE s1.t (a int NOT NULL DEFAULT 0 REFERENCES s.o(x) UNIQUE, b varchar(5), CONSTRAINT u UNIQUE (a, b));\nALTER TABLE s1.t ADD UNIQUE (b);",
     "CREATE EXTERNAL TABLE h (x int, y MAP<STRING, ARRAY<INT>>) PARTITIONED BY (dt string) STORED AS PARQUET LOCATION 's3://a/b';",
     "CREATE SEQUENCE s.q INCREMENT BY 5 START WITH 10 NO MAXVALUE CACHE;\nCREATE TYPE s.m AS ENUM ('a', 'b');\nCREATE DOMAIN s.d AS varchar(3);",
     "CREATE UNIQUE INDEX i ON t (a DESC, b);\nSELECT 1;",
+    # uses the production that the "older grammar revision" table file (state staleold) does not have
+    "CREATE TABLE p.s.t3 (a int, b varchar(5));",
 ]
+OLD_GRAMMAR_EDIT = ("dialects/sql.py", '"""t_name : id DOT id\n        | id\n        | id DOT id DOT id\n', '"""t_name : id DOT id\n        | id\n')
 
 _WORK = r"""
 import sys, json, hashlib
@@ -67,8 +70,46 @@ print('RESULT ' + json.dumps(res))
 """
 
 
+# the same cache-state sequences inside ONE interpreter: between two steps the table file on disk is put into the next state while the
+# process (with whatever it has imported and cached) lives on; every step constructs new parser objects and parses the workload
+_WORK_INPROC = r"""
+import sys, json, hashlib, os, shutil
+root, wfile, good_path, states = sys.argv[1], sys.argv[2], sys.argv[3], json.loads(sys.argv[4])
+old_path, single = sys.argv[5], sys.argv[6] == '1'
+sys.path.insert(0, root)
+import logging; logging.disable(logging.CRITICAL)
+good = open(good_path).read()
+path = os.path.join(root, 'simple_ddl_parser', 'parsetab.py')
+def set_state(st):
+    shutil.rmtree(os.path.join(root, 'simple_ddl_parser', '__pycache__'), ignore_errors=True)
+    if st == 'valid': open(path, 'w').write(good)
+    elif st == 'missing':
+        if os.path.exists(path): os.unlink(path)
+    elif st == 'stale': open(path, 'w').write(good.replace("_lr_signature = '", "_lr_signature = 'STALE ", 1))
+    elif st == 'oldver': open(path, 'w').write(good.replace("_tabversion = '3.10'", "_tabversion = '3.8'", 1))
+    elif st == 'staleold': open(path, 'w').write(open(old_path).read() if os.path.exists(old_path) else good.replace("_lr_signature = '", "_lr_signature = 'STALE ", 1))
+work = json.load(open(wfile))
+if single:
+    work = work[-2:-1]  # exactly one parser object per step, on the script that needs the newest production
+steps = []
+for st in states:
+    set_state(st)
+    import importlib; importlib.invalidate_caches()
+    from simple_ddl_parser import DDLParser
+    out = []
+    for ddl, ctor, run in work:
+        try: r = ['ok', DDLParser(ddl, **ctor).run(**run)]
+        except Exception as e: r = ['exc', type(e).__name__]
+        out.append(hashlib.sha1(json.dumps(r, sort_keys=True, default=str).encode()).hexdigest())
+    steps.append(out)
+print('RESULT ' + json.dumps({'steps': steps}))
+"""
+INPROC_STATES = ["valid", "missing", "stale", "oldver", "staleold"]
+
+
 def bounds(tier):
-    return {"cache_states": len(STATES), "fault_sequence_length": 3 if tier == "thorough" else 2}
+    return {"cache_states": len(STATES), "fault_sequence_length": 3 if tier == "thorough" else 2,
+            "in_process_sequences": "all sequences of length 2%s over %d states inside one interpreter" % (" and 3" if tier == "thorough" else "", len(INPROC_STATES))}
 
 
 def workload(full=True):
@@ -93,6 +134,10 @@ def gen_cases(tier):
             if k == 3 and seq[0] == "valid":
                 continue
             cases.append({"kind": "seq", "heavy": True, "seq": list(seq), "full": tier == "thorough" or k == 1})
+    for k in ((2, 3) if tier == "thorough" else (2,)):
+        for seq in itertools.product(INPROC_STATES, repeat=k):
+            cases.append({"kind": "inproc", "heavy": True, "seq": list(seq)})
+            cases.append({"kind": "inproc", "heavy": True, "seq": list(seq), "single": True})
     return cases
 
 
@@ -144,6 +189,23 @@ def fresh():
             _FRESH["error"] = err
             shutil.rmtree(tmp, ignore_errors=True)
             return _FRESH
+        # a table file generated from an OLDER revision of the grammar (one alternative of t_name less): a realistic stale cache
+        try:
+            old = tempfile.mkdtemp(prefix="c20o_", dir=sut.root())
+            sut.copy_package(old, sut.root())
+            rel, a, b = OLD_GRAMMAR_EDIT
+            src = os.path.join(old, "simple_ddl_parser", rel)
+            txt = open(src).read()
+            if txt.count(a) == 1:
+                open(src, "w").write(txt.replace(a, b))
+                os.unlink(os.path.join(old, "simple_ddl_parser", "parsetab.py"))
+                json.dump([["CREATE TABLE t (a int);", {}, {}]], open(os.path.join(old, "w.json"), "w"))
+                r_old, _ = _run_work(old, os.path.join(old, "w.json"))
+                if r_old is not None and os.path.exists(os.path.join(old, "simple_ddl_parser", "parsetab.py")):
+                    shutil.copyfile(os.path.join(old, "simple_ddl_parser", "parsetab.py"), os.path.join(tmp, "old_parsetab.py"))
+            shutil.rmtree(old, ignore_errors=True)
+        except Exception:  # noqa
+            pass
         json.dump(res, open(os.path.join(tmp, "done.json"), "w"))
         try:
             os.rename(tmp, base)
@@ -199,6 +261,9 @@ def set_state(pkg, state, F):
         open(path, "w").write(good.replace("_lr_signature = '", "_lr_signature = 'STALE ", 1))
     elif state == "oldver":
         open(path, "w").write(good.replace("_tabversion = '3.10'", "_tabversion = '3.8'", 1))
+    elif state == "staleold":
+        oldp = os.path.join(F["dir"], "old_parsetab.py")
+        open(path, "w").write(open(oldp).read() if os.path.exists(oldp) else good.replace("_lr_signature = '", "_lr_signature = 'STALE ", 1))
     elif state == "truncated":
         open(path, "w").write(good[: len(good) // 2])
     elif state == "garbage":
@@ -239,6 +304,30 @@ def evaluate(case):
                 D.append(diff("workload results with the tree's cache", "results-differ-from-fresh-tables", "equal digests", {"scripts": bad[:5]}))
             return {"diffs": D, "nontrivial": True, "outcome": "tables:sigmatch=%s" % sig_match, "states": ns, "transitions": ne + n2, "traces": 1,
                     "shipped_signature_matches_grammar": sig_match, "lr_states": ns, "entries_compared": ne + n2, "keys": ["tables", "tables-shipped"]}
+        finally:
+            shutil.rmtree(tmp, ignore_errors=True)
+    if case["kind"] == "inproc":
+        tmp = tempfile.mkdtemp(prefix="c20c_", dir=sut.scratch_base())
+        try:
+            sut.copy_package(tmp, sut.root())
+            env = dict(os.environ, PYTHONDONTWRITEBYTECODE="1", PYTHONHASHSEED="0")
+            p = subprocess.run([sut.PYTHON, "-c", _WORK_INPROC, tmp, F["work_small"], os.path.join(F["dir"], "simple_ddl_parser", "parsetab.py"),
+                                json.dumps(case["seq"]), os.path.join(F["dir"], "old_parsetab.py"), "1" if case.get("single") else "0"],
+                               capture_output=True, text=True, env=env, cwd=tmp)
+            line = [l for l in p.stdout.splitlines() if l.startswith("RESULT ")]
+            where = "in-process sequence %s" % "->".join(case["seq"])
+            if not line:
+                errl = [l for l in p.stderr.splitlines() if l.strip()]
+                D.append(diff(where, "library-does-not-start", "results", " | ".join(errl[-3:])[:400]))
+            else:
+                ref = F["res"]["digests_small"][-2:-1] if case.get("single") else F["res"]["digests_small"]
+                for n, dig in enumerate(json.loads(line[0][7:])["steps"]):
+                    if dig != ref:
+                        bad = [i for i, (x, y) in enumerate(zip(dig, ref)) if x != y]
+                        D.append(diff("%s, step %d (%s)" % (where, n, case["seq"][n]), "results-differ-from-valid-cache", "equal digests", {"scripts": bad[:5]}))
+                        break
+            return {"diffs": D, "nontrivial": any(s_ != "valid" for s_ in case["seq"]), "outcome": "inproc", "states": len(case["seq"]) + 1,
+                    "transitions": len(case["seq"]), "traces": 1}
         finally:
             shutil.rmtree(tmp, ignore_errors=True)
     tmp = tempfile.mkdtemp(prefix="c20b_", dir=sut.scratch_base())
